@@ -18,6 +18,9 @@
    28 p close sender  29 p close receiver
    30 slot off k              read_at into a Vec of capacity 2^32 + k (k may itself be >= 2^32)
    31 path n bytes            fs::write       32 path   fs::read
+   33 slot path bits mode custom   OpenOptions with .mode(mode).custom_flags(custom), custom a subset of
+                              O_APPEND | O_EXCL | O_NOFOLLOW | O_DIRECTORY | __O_TMPFILE; the result of a
+                              successful open is [0; st_mode & 0o7777 of the handle]
    rbuf = [shape; len; cap; a; b]   wbuf = [shape; extra; a; b; n; bytes..]
    shape 0 Vec, 1 .slice(a..), 2 .slice(a..b), 3 .uninit()
    rvec = [nm; (len cap)*]          wvec = [nm; (extra n bytes..)*]
@@ -127,7 +130,7 @@ Definition enc_node (fs : fsys) (x : path * node) : list N :=
   enc_path (fst x) ++
   match snd x with
   | NFile i => let ino := get_inode fs i in
-               [0%N; b2n (iro ino); NN (length (idata ino))] ++ idata ino
+               [0%N; imode ino; NN (length (idata ino))] ++ idata ino
   | NDir => [1%N]
   | NLink t => 2%N :: enc_path t
   end.
@@ -156,6 +159,8 @@ Definition with_pipe (w : world) (s : nat) (p : option pipe) : world :=
 
 Definition set_pos (h : handle) (p : nat) : handle :=
   mkh (hk h) (h_r h) (h_w h) (h_app h) (h_seq h) p.
+
+Definition CUSTOM_ALLOWED : N := 4392064.   (* O_APPEND|O_EXCL|O_NOFOLLOW|O_DIRECTORY|__O_TMPFILE *)
 
 Definition opts_of_bits (bits : N) : oopts :=
   mkopts (N.testbit bits 0) (N.testbit bits 1) (N.testbit bits 3)
@@ -214,7 +219,7 @@ Definition step (w : world) (l : list N) : option (R (world * list N) * list N) 
     match open_flags (opts_of_bits bits) with
     | Rerr e => ret (w, [1%N; e]) l
     | Rok flags =>
-      match fs_open fs p flags (negb (seq =? 0)%N) with
+      match fs_open fs p flags DEFAULT_MODE (negb (seq =? 0)%N) with
       | (fs', Rok h) => ret (with_slot (with_fs w fs') s (Some h), [0; 0]%N) l
       | (fs', Rerr e) => ret (with_fs w fs', [1%N; e]) l
       end
@@ -472,7 +477,7 @@ Definition step (w : world) (l : list N) : option (R (world * list N) * list N) 
     match open_flags (mkopts false true true true false 0%N) with
     | Rerr e => ret (w, [1%N; e]) l
     | Rok flags =>
-      match fs_open fs p flags false with
+      match fs_open fs p flags DEFAULT_MODE false with
       | (fs', Rerr e) => ret (with_fs w fs', [1%N; e]) l
       | (fs', Rok h) =>
         let '(fs'', r) := h_write fs' h 0 bs in
@@ -484,13 +489,32 @@ Definition step (w : world) (l : list N) : option (R (world * list N) * list N) 
     match open_flags (mkopts true false false false false 0%N) with
     | Rerr e => ret (w, [1%N; e]) l
     | Rok flags =>
-      match fs_open fs p flags false with
+      match fs_open fs p flags DEFAULT_MODE false with
       | (_, Rerr e) => ret (w, [1%N; e]) l
       | (_, Rok h) =>
         match h_read fs h 0 (match hk h with HFile i => length (idata (get_inode fs i)) | HDir => 0 end) with
         | Rerr e => ret (w, [1%N; e]) l
         | Rok bs => ret (w, [0%N; NN (length bs)] ++ bs) l
         end
+      end
+    end
+  | 33%N =>
+    let? '(s, l) := dec_slot l in
+    let? '(p, l) := dec_path l in
+    let? '(bits, l) := take1 l in
+    let? '(mode, l) := take1 l in
+    let? '(custom, l) := take1 l in
+    if negb ((mode <=? 4095) && (N.ldiff custom CUSTOM_ALLOWED =? 0) && (bits <? 64))%N then None else
+    let w := with_slot w s None in
+    let o := opts_of_bits bits in
+    let o := mkopts (oo_read o) (oo_write o) (oo_truncate o) (oo_create o) (oo_create_new o)
+                    (N.lor (oo_custom o) custom) in
+    match open_request o mode with
+    | Rerr e => ret (w, [1%N; e]) l
+    | Rok (flags, m) =>
+      match fs_open fs p flags m false with
+      | (fs', Rok h) => ret (with_slot (with_fs w fs') s (Some h), [0%N; h_perm fs' h]) l
+      | (fs', Rerr e) => ret (with_fs w fs', [1%N; e]) l
       end
     end
   | _ => None
